@@ -220,13 +220,16 @@ def histories(chk, tier):
         return xs[::max(1, len(xs) // n)][:n]
     hs = []
     if tier == "quick":
-        hs += stride(wcommon.gen_histories(chk, [1], [2, 3], 2, 2, workers=4), 10)
-        hs += wcommon.gen_histories(chk, [2, 3, 4, 5, 6, 7, 8], [0, 2, 9], 3, 2, nullmode="runs", simulate=40, depth=40, workers=4)
+        hs += stride(wcommon.gen_histories(chk, [1], [2, 3], 2, 2, workers=4), 8)
+        hs += stride(wcommon.gen_histories(chk, [2, 3, 4, 5, 6, 7, 8], [0, 2, 9], 3, 2, nullmode="runs", simulate=8, depth=40, workers=4), 10)
     else:
         hs += stride(wcommon.gen_histories(chk, [1], [1, 2, 3], 2, 2, workers=6), 30)
         hs += stride(wcommon.gen_histories(chk, [2, 3], [0, 2, 3], 2, 2, workers=6, limit=20000), 30)
-        hs += wcommon.gen_histories(chk, [2, 3, 4, 5, 6, 7, 8], [0, 1, 2, 9, 17], 3, 3, nullmode="runs", anyorder=True,
-                                    simulate=400, depth=60, workers=6)
+        # columns in any order only for the small schemas (the interleavings are enumerated, not sampled)
+        hs += stride(wcommon.gen_histories(chk, [2, 3], [0, 1, 2, 9], 2, 3, nullmode="runs", anyorder=True,
+                                           simulate=8, depth=60, workers=6), 15)
+        hs += stride(wcommon.gen_histories(chk, [2, 3, 4, 5, 6, 7, 8], [0, 1, 2, 9, 17], 3, 3, nullmode="runs",
+                                           simulate=16, depth=60, workers=6), 40)
     seen, out = set(), []
     for h in hs:
         k = json.dumps(h, sort_keys=True)
@@ -635,9 +638,17 @@ class Traces:
                 for res in ex.map(work, used):
                     ress.append(res)
                     if res.error or res.rc != 0 or not res.cases:
+                        try:
+                            with open(os.path.join(common.scratch_root(), "c18-tlc-failure.log"), "w") as fh:
+                                fh.write(res.out)
+                        except OSError:
+                            pass
                         raise common.InfraError("trace validation with SinkTrace failed (rc=%s %s)\n%s" % (res.rc, res.error, res.out[-3000:]))
                     rep = res.cases[-1]
-                    verdicts.extend(rep["verdicts"])
+                    vs = [c["verdict"] for c in res.cases if isinstance(c, dict) and "verdict" in c]
+                    if "stats" not in rep or rep.get("rejected") != len(vs):
+                        raise common.InfraError("SinkTrace report incomplete: %s rejected events announced, %d verdict lines" % (rep.get("rejected"), len(vs)))
+                    verdicts.extend(vs)
                     for k in self.KEYS:
                         stats[k] += rep["stats"].get(k, 0)
         finally:
